@@ -7,13 +7,14 @@ package main
 
 import (
 	"fmt"
-	"os"
-	"sync/atomic"
 	"go/constant"
 	"go/token"
 	"go/types"
+	"os"
 	"sort"
 	"strings"
+	"sync/atomic"
+	"time"
 
 	"golang.org/x/tools/go/ssa"
 )
@@ -71,11 +72,15 @@ type frame struct {
 }
 
 type Exec struct {
-	P      *Program
-	tt     *TermTable
-	lc     *layoutCache
-	solver *Solver
-	cfg    *RunConfig
+	P          *Program
+	tt         *TermTable
+	lc         *layoutCache
+	solver     *Solver
+	fallbacks  []*Solver
+	race       bool
+	raceWins   [8]int
+	nFallbacks int
+	cfg        *RunConfig
 
 	// per path
 	pc        []*Term
@@ -412,7 +417,21 @@ func (ex *Exec) solveFocus(c *Term, focus *Term) SatResult {
 		p.Assert(x)
 	}
 	p.Assert(c)
-	res, m, note := ex.solver.Check(p.String(), p.Vars)
+	var res SatResult
+	var m Model
+	var note string
+	if ex.race && len(ex.fallbacks) > 0 {
+		res, m, note = ex.raceCheck(p.String(), p.Vars)
+	} else {
+		res, m, note = ex.solver.Check(p.String(), p.Vars)
+		for _, fb := range ex.fallbacks {
+			if res != Unknown {
+				break
+			}
+			ex.nFallbacks++
+			res, m, note = fb.Check(p.String(), p.Vars)
+		}
+	}
 	ex.nQueries++
 	switch res {
 	case Sat:
@@ -430,6 +449,54 @@ func (ex *Exec) solveFocus(c *Term, focus *Term) SatResult {
 		ex.abort(abortUnknown, "solver: %s", note)
 	}
 	return res
+}
+
+// raceCheck sends the query to every portfolio member at once; the first
+// definite verdict wins and the others are killed (restarted lazily).
+func (ex *Exec) raceCheck(body string, vars []*Term) (SatResult, Model, string) {
+	type ans struct {
+		res  SatResult
+		m    Model
+		note string
+		who  int
+	}
+	all := append([]*Solver{ex.solver}, ex.fallbacks...)
+	ch := make(chan ans, len(all))
+	for i, sv := range all {
+		go func(i int, sv *Solver) {
+			t0 := time.Now()
+			r, m, n := sv.Check(body, vars)
+			if ex.cfg.Debug {
+				fmt.Printf("race: %s -> %s in %.2fs (%s)\n", sv.kind, r, time.Since(t0).Seconds(), n)
+			}
+			ch <- ans{r, m, n, i}
+		}(i, sv)
+	}
+	var got []ans
+	winner := -1
+	for len(got) < len(all) {
+		a := <-ch
+		got = append(got, a)
+		if a.res != Unknown && winner < 0 {
+			winner = len(got) - 1
+			for j, sv := range all {
+				if j != a.who {
+					sv.Kill()
+				}
+			}
+		}
+	}
+	if winner < 0 {
+		return Unknown, nil, "no portfolio member gave a verdict: " + got[0].note
+	}
+	// two definite but different verdicts would be a solver disagreement
+	for _, a := range got {
+		if a.res != Unknown && a.res != got[winner].res {
+			return Unknown, nil, "portfolio members disagree on a verdict"
+		}
+	}
+	ex.raceWins[got[winner].who]++
+	return got[winner].res, got[winner].m, got[winner].note
 }
 
 func (ex *Exec) replaying() bool { return ex.pos < len(ex.prefix) }
